@@ -79,6 +79,7 @@ VH_NOINSTR int main(int argc, char** argv) {
   int init = atoi(argv[2]);
   vh_parse(argv[3]);
   fiber_manager_init(k);
+  VH_DIRTY(sem);
   fiber_semaphore_init(&sem, init);
   avail = init;
   vr_reg(&sem.counter, sizeof sem.counter, "counter");
